@@ -23,3 +23,5 @@ import BU.Properties.C10_GenPub
 #print axioms C10GenPub.gen_address_init_hash160
 #print axioms C10GenPub.gen_pubkey_get_address
 #print axioms C10GenPub.gen_pubkey_address_commits
+#print axioms C10GenPub.gen_address_init_address
+#print axioms C10GenPub.gen_ctor_accept_sound
